@@ -203,16 +203,13 @@ impl Constraints {
                 // Direct generation when `from` is less than `to`
                 from + rng.gen_range(0.0..(to - from))
             } else {
-                // Wrap-around case: generate an angle based on two segments
-                let range_length = (2.0 * PI - (from - to)).abs();
-                let segment = rng.gen_range(0.0..range_length);
-
-                // Determine which segment to take (before or after the wrap)
-                if segment < (2.0 * PI - from) {
-                    from + segment // Within the forward wrap
-                } else {
-                    to + (segment - (2.0 * PI - from)) // After the wrap
+                // Wrap-around case: move `to` forward by whole turns until it gets ahead of
+                // `from` (as compute_centers does), then draw from the resulting arc.
+                let mut end = to;
+                while end <= from {
+                    end += 2.0 * PI;
                 }
+                from + rng.gen_range(0.0..(end - from))
             };
             random_angle
         }
